@@ -313,28 +313,16 @@ def bfNormalise (e : Endian) (w lit : Nat) : Option Nat :=
 /-- `BitField::verify`: `lsb <= msb` and `msb < len`. -/
 def bfVerify (w lsb msb : Nat) : Bool := lsb ≤ msb && msb < w
 
-def i64Min : Int := -(2 ^ 63)
-def i64Max : Int := 2 ^ 63 - 1
+/-- Macro-time `BitField::min` (`impl/macros/src/register_map.rs`), computed in `i128`:
+`-(1_i128 << (msb - lsb))` for signed types, `0` otherwise.  `verify` guarantees
+`msb - lsb ≤ 63`, so the `i128` arithmetic is exact (no profile dependence). -/
+def bfMin (signed : Bool) (lsb msb : Nat) : Int :=
+  if signed then -(2 ^ (msb - lsb)) else 0
 
-/-- Macro-time `BitField::min` in `i64` arithmetic of the (dev profile) proc-macro crate;
-`none` = arithmetic overflow panic inside the macro, i.e. the declaration does not compile. -/
-def bfMinI64 (signed : Bool) (lsb msb : Nat) : Option Int :=
-  if signed then
-    -- `let value = 1 << (msb - lsb) as i64; -value`
-    if msb - lsb ≥ 64 then none
-    else
-      let value : Int := if msb - lsb = 63 then i64Min else 2 ^ (msb - lsb)
-      if value = i64Min then none else some (-value)
-  else some 0
-
-/-- Macro-time `BitField::max`. -/
-def bfMaxI64 (signed : Bool) (lsb msb : Nat) : Option Int :=
-  let sh := if signed then msb - lsb else msb - lsb + 1
-  -- `(1 << sh) - 1`
-  if sh ≥ 64 then none
-  else
-    let v : Int := if sh = 63 then i64Min else 2 ^ sh
-    if v - 1 < i64Min then none else some (v - 1)
+/-- Macro-time `BitField::max`: `(1_i128 << (msb - lsb)) - 1` for signed types,
+`(1_i128 << (msb - lsb + 1)) - 1` otherwise. -/
+def bfMax (signed : Bool) (lsb msb : Nat) : Int :=
+  if signed then 2 ^ (msb - lsb) - 1 else 2 ^ (msb - lsb + 1) - 1
 
 /-- signed maximum / minimum of the integer type, as bit patterns -/
 def intMaxBV (w : Nat) : BitVec w := BitVec.ofNat w (2 ^ (w - 1) - 1)
